@@ -1671,6 +1671,9 @@ func TestVerif_C09_Logs(t *testing.T) {
 	req("resets_mid_chunked_op", 130)
 	req("batches_txn_not_first", 6000)
 	req("chunked_txns", 700)
+	req("installs_with_zero_length_value_after_nonempty_neighbour", 200)
+	req("installs_with_single_nul_value", 150)
+	req("installs_with_key_prefix_of_next_key", 200)
 	req("replica_runs_checked_to_the_end", 3000)
 }
 
@@ -1752,6 +1755,8 @@ func TestVerif_C09_Small(t *testing.T) {
 	req := func(name string, quick int) { r.Require(name, int64(kit.N(quick, quick*25)/shards)) }
 	req("logs_with_conflicting_txn", 35)
 	req("partitions", 3500)
+	req("installs_with_zero_length_value_after_nonempty_neighbour", 100)
+	req("installs_with_single_nul_value", 100)
 	req("resets_inside_conflicting_txn_window", 450)
 	req("batches_txn_not_first", 4500)
 	req("replica_runs_checked_to_the_end", 4500)
@@ -2188,6 +2193,8 @@ func TestVerif_C09_LeaderLog(t *testing.T) {
 	req("leader_txn_commit", 60)
 	req("leader_txn_conflict", 30)
 	req("leader_txn_lists", 150)
+	req("installs_with_zero_length_value_after_nonempty_neighbour", 8)
+	req("installs_with_single_nul_value", 6)
 	req("resets_inside_conflicting_txn_window", 30)
 	req("replica_runs", 60)
 }
